@@ -32,8 +32,8 @@ type c17Case struct {
 	Table   string            `json:"table"`
 	DDL     string            `json:"ddl"`
 	Groups  []atGroup         `json:"program"`
-	Outcome string            `json:"outcome"` // nil (commit) | error (rollback)
-	Fault   string            `json:"fault"`   // none | register-refused | <kind>@<command>
+	Outcome string            `json:"outcome"`      // nil (commit) | error (rollback)
+	Fault   string            `json:"fault"`        // none | register-refused | <kind>@<command>
 	P2On    string            `json:"phase_two_on"` // holder | other-process
 	Version string            `json:"server_version"`
 	Feat    map[string]string `json:"features"`
